@@ -33,6 +33,8 @@ func NewTimerRegistry(store *TimerStore, srIDs []string) *TimerRegistry {
 	return &TimerRegistry{
 		upstreams: upstreams,
 		store:     store,
+		// No upstream has reported yet: the minimum of the initial upstream watermarks.
+		watermark: time.Unix(0, 0),
 	}
 }
 
